@@ -271,7 +271,10 @@ def slant_k(angle):
     return math.tan(math.radians(angle))
 
 
-cls("C15_Anchor", fields={"name": STR, "x": REAL, "y": REAL}, notes="anchor object")
+_ANCHOR_NAME = z3.Function("c15_anchor_name", T.RefSort, z3.StringSort())
+cls("C15_Anchor", fields={"x": REAL, "y": REAL}, derived={"name": lambda ex, st, self: Val(STR, _ANCHOR_NAME(lift(self)))}, views={"name": lambda o: o.name},
+    notes="anchor object: position (x, y) and name.  The name is modelled as a FUNCTION of the object (immutable): none of the functions under "
+          "contract assigns an anchor's name (hook obligation C15.frame.anchor-names); a new anchor gets its name when it is created")
 cls("C15_Glyph", fields={"name": STR, "width": REAL, "height": REAL, "anchors": List(Ref("C15_Anchor")), "components": List(Ref("C15_AComponent")), "ncontours": INT},
     length=lambda ex, st, v: ex.read_field(st, v, "ncontours"), notes="glyph: name, advance, anchors, components, len() = number of contours")
 cls("C15_GlyphSet", fields={"glyphs": Dict(STR, Ref("C15_Glyph"))},
@@ -896,7 +899,9 @@ def _appendAnchor(ex, st, self, args, kwargs, node):
     if not (d.is_py and isinstance(d.py, dict) and set(d.py) == {"name", "x", "y"}):
         raise Unsupported("appendAnchor(...) with other than a literal {'name', 'x', 'y'} dict", node)
     a = ex.new_object(st, "C15_Anchor")
-    for k in ("name", "x", "y"):
+    nm = d.py["name"]
+    st.assume(_ANCHOR_NAME(lift(a)) == lift(nm if isinstance(nm, Val) else Val.const(nm), STR))  # the new object's (immutable) name
+    for k in ("x", "y"):
         v = d.py[k]
         ex.write_field(st, a, k, v if isinstance(v, Val) else Val.const(v), node)
     cur = ex.read_field(st, self, "anchors")
@@ -908,7 +913,7 @@ def _appendAnchor(ex, st, self, args, kwargs, node):
     return Val.const(None)
 
 
-_appendAnchor.modifies = ["C15_Glyph.anchors", "C15_Anchor.name", "C15_Anchor.x", "C15_Anchor.y"]
+_appendAnchor.modifies = ["C15_Glyph.anchors", "C15_Anchor.x", "C15_Anchor.y"]
 CLASSES["C15_Glyph"].methods["appendAnchor"] = _appendAnchor
 cls("C15_Categories", fields={"mark": Set(STR)}, notes="OpenTypeCategories: only the set of mark glyph names is used")
 
@@ -939,6 +944,10 @@ def _sorted_items(ex, st, args, kwargs, node):
 _PGA = "ufo2ft.filters.propagateAnchors:_propagate_glyph_anchors"
 _GSG = "glyphSet.glyphs"
 _HAD = "any(a.name == probe for a in old(composite.anchors))"
+_NA0 = "len(old(composite.anchors))"
+_UNTOUCHED = f"all(implies(n in old(processed), {_GSG}[n].anchors == old({_GSG}[n].anchors)) for n in glyphSet.names)"
+_NO_OVERRIDE = "implies(probe in to_add, not any(a.name == probe for a in composite.anchors))"
+_PRESENT = "all(c.baseGlyph in glyphSet.glyphs for c in {l})"
 contract(
     _PGA,
     props=["C15"],
@@ -946,7 +955,11 @@ contract(
     globals={"probe": _PROBE},
     calls={"ufo2ft.filters.propagateAnchors:_get_anchor_data": "ufo2ft.filters.propagateAnchors:_get_anchor_data#any-components"},
     models={"builtins.sorted": _sorted_items},
-    modifies=["processed", "modified", "C15_Glyph.anchors", "C15_Anchor.name", "C15_Anchor.x", "C15_Anchor.y"],
+    dict_key_positions=False,
+    extract_free=True, seq_bridge=True,  # `mark_components.remove(c)`: the two halves and their concatenation come with position-wise facts
+    # (anchor positions: only the NEW anchors' x / y are written; declared class-wide because the frame check cannot see through the loop cut
+    #  that the written objects are new — callers merely forget positions; names are immutable, see C15_Anchor)
+    modifies=["processed", "modified", "C15_Glyph.anchors", "C15_Anchor.x", "C15_Anchor.y"],
     requires=[
         f"all({_GSG}[n].name == n for n in glyphSet.names)",  # the glyph set maps every name to the glyph of that name
         f"composite.name in {_GSG} and {_GSG}[composite.name] == composite",
@@ -954,7 +967,40 @@ contract(
     ensures={
         "processed-grows": "all(n in processed for n in old(processed)) and composite.name in processed",
         "modified-grows": "all(n in modified for n in old(modified))",
+        # a glyph that was already processed is left completely alone ...
+        "processed-glyph-skipped": "implies(composite.name in old(processed), processed == old(processed) and modified == old(modified))",
+        # ... by this activation and by the recursion into the bases
+        "processed-glyphs-untouched": _UNTOUCHED,
+        # ONLY APPENDS: the anchors the composite had stay where they are (same objects)
+        "only-appends": f"len(composite.anchors) >= {_NA0} and all(composite.anchors[k] == old(composite.anchors)[k] for k in range({_NA0}))",
+        # NEVER OVERRIDES (for the arbitrary name `probe`): no appended anchor carries the name of an anchor the composite already had
+        "never-overrides": f"implies({_HAD}, all(composite.anchors[k].name != probe for k in range({_NA0}, len(composite.anchors))))",
     },
     canaries={"never-adds": "len(composite.anchors) == len(old(composite.anchors))"},
     locals={"base_components": List(Ref("C15_AComponent")), "mark_components": List(Ref("C15_AComponent")), "anchor_names": Set(STR), "to_add": _AD, "glyph": Ref("C15_Glyph")},
+    ghost_vars={"A0": (List(Ref("C15_Anchor")), "composite.anchors")},
+    hints={"mark_components.remove(component)": [_PRESENT.format(l="mark_components")]},
+    loops={
+        "for component in composite.components": Loop(
+            index="ci",
+            invariants={
+                "processed": "all(n in processed for n in old(processed)) and composite.name in processed",
+                "modified": "all(n in modified for n in old(modified))",
+                "untouched": _UNTOUCHED,
+                "own-anchors": "composite.anchors == A0",
+                "bases-present": _PRESENT.format(l="base_components") + " and " + _PRESENT.format(l="mark_components"),
+            },
+        ),
+        "for anchor_name in anchor_names": Loop(done="AN", invariants={"no-override": _NO_OVERRIDE}),
+        "for component in mark_components": Loop(index="mi", invariants={"no-override": _NO_OVERRIDE}),
+        "for (name, (x, y)) in sorted(to_add.items())": Loop(
+            index="si", seq="KS",
+            invariants={
+                "appended": "len(composite.anchors) == len(A0) + si",
+                "kept": "all(composite.anchors[k] == A0[k] for k in range(len(A0)))",
+                "new-names": "all(composite.anchors[len(A0) + k].name == KS[k] for k in range(si))",
+                "untouched": _UNTOUCHED,
+            },
+        ),
+    },
 )
